@@ -2173,3 +2173,11 @@ V(id='c13-cpow-half-integer-through-log', prop='C13', file='mpmath/libmp/libmpc.
   new="", expect='fire:E-X2:mpc_pow_mpf')
 V(id='c13-benign-pow-half-integer-reordered', prop='C13', file='mpmath/libmp/libelefun.py',
   old="    if texp == -1:\n        if tman == 1:", new="    if -1 == texp:\n        if tman == 1:", expect='silent')
+
+# ---- C13 B-R9 extended to intermediates written as nested arguments (seed C13-9) ----
+V(id='c13-csqrt-modulus-without-guard-bits', prop='C13', file='mpmath/libmp/libmpc.py',
+  old="        t = mpf_sub(mpc_abs((a, b), wp), a, wp)", new="        t = mpf_sub(mpc_abs((a, b), prec), a, wp)",
+  expect='fire:B-R9:mpc_sqrt')
+V(id='c13-csqrt-modulus-without-guard-bits-positive-branch', prop='C13', file='mpmath/libmp/libmpc.py',
+  old="        t  = mpf_add(mpc_abs((a, b), wp), a, wp)", new="        t  = mpf_add(mpc_abs((a, b), prec), a, wp)",
+  expect='fire:B-R9:mpc_sqrt')
